@@ -184,7 +184,19 @@ def execute(prop, run):
                             % (2 ** 32),
                             config=_node_config(run, incarnation))
             except NodeTimeout:
-                raise HarnessTimeout('op %r %s' % (ev['id'], name))
+                tv = ev.get('tags', {}).get('timeout_violation')
+                if not tv:
+                    raise HarnessTimeout('op %r %s' % (ev['id'], name))
+                # bounded liveness: the operation had to return
+                rec = {'id': ev['id'], 'op': name, 'outcome': 'hung',
+                       'rargs': ev.get('args')}
+                ex.add(violation(
+                    tv, ev['id'], '%s did not return within %.0f s' % (
+                        name, OP_TIMEOUT), sig=tv + ':hang'))
+                incarnation += 1
+                node = Node(root, splitmix64(seed, 1000 + incarnation)
+                            % (2 ** 32),
+                            config=_node_config(run, incarnation))
             rec['incarnation'] = incarnation
             ex.records[ev['id']] = rec
             oc = rec['outcome']
